@@ -488,6 +488,20 @@ fn rule_additions(pid: &str) -> &'static str {
     }
 }
 
+/// families added after rounds 12 and 13 (DESIGN.md deviations 32, 33)
+fn rule_additions_2(pid: &str) -> &'static str {
+    match pid {
+        "C01" => "; every clock the code can read is simulated (interposed clock_gettime): each schedule has its own pace (0 / 1 ms / 13 s / 65 s / 2 h of simulated time per stream call); volleys of 17..120 minimal requests; header blocks with a distinct name per line",
+        "C02" => "; volleys of 17..120 minimal requests; header blocks of 33..300 lines with a distinct custom name per line",
+        "C05" => "; bodies of 1..3 MiB (one run in 2500); every third multi-call response is also written once half-way through its program, then changed and written again",
+        "C06" => "; write sizes aimed at the end of the response head (exactly, one byte less / more) and at the status line; bodies of 1..3 MiB through writes of 10..900 KiB (one run in 2500); other errnos (ENOBUFS, ENOMEM, EIO, ENOSPC, ...)",
+        "C14" => "; one run in 3000 is a 1..2 MiB request on a connection whose limit was raised, compared with the one-shot parser without maximum; header blocks of 66000 lines",
+        "C10" => "; refusal storms from the lean engine (one run in 6000: a full server and 260..66000 surplus clients, 1..40 at a time; then time passes, one more refusal, a resident served, a released slot re-used); the additions listed for C07",
+        "C07" | "C08" | "C09" | "C18" | "C04" | "C11" | "C13" => "; simulated time: sleep steps (1 s .. 10^6 s), wall-clock steps back and forward, a pace of 1 ms .. 2.5 s per system call (a quarter of the histories); descriptor numbers 2..4096 apart (one history in 12); one application response in 12 sized against the free space of its client's socket buffer; raw fcntl / ioctl / recv / send / poll / getsockopt by descriptor number act on the simulated descriptor; hostile clients may become spinning senders (socket full again after every server receive) and may pass descriptors (real pipe ends) whose closure is checked once the client was released",
+        _ => "",
+    }
+}
+
 /// Run a property check end to end; returns the process exit code.
 pub fn run_check(prop: &dyn Prop, cfg: &RunCfg) -> i32 {
     let known = match load_known(&cfg.verif_dir) {
@@ -589,7 +603,7 @@ pub fn run_check(prop: &dyn Prop, cfg: &RunCfg) -> i32 {
             ("evaluations", J::Int(sum.evaluations as i128)),
             ("distinct_nontrivial", J::Int(sum.distinct_nontrivial as i128)),
             ("nontrivial_runs", J::Int(sum.nontrivial as i128)),
-            ("rule", json::s(&format!("{}{}", prop.rule(), rule_additions(pid)))),
+            ("rule", json::s(&format!("{}{}{}", prop.rule(), rule_additions(pid), rule_additions_2(pid)))),
             ("samples", J::Arr(if sum.samples.is_empty() { vec![json::s("(no non-trivial run among the first 256)")] } else { sum.samples.clone() })),
             ("runs_per_hour", J::Float(runs_per_hour.round())),
             ("simulated_time_logical_steps", J::Int(sum.stats.steps as i128)),
